@@ -100,5 +100,3 @@ func printReport(rep *gosym.Report) {
 		fmt.Printf("   last solver error: %s\n", gosym.LastSolverError)
 	}
 }
-
-func cmdCheck(args []string) { fmt.Fprintln(os.Stderr, "not yet"); os.Exit(2) }
